@@ -215,6 +215,7 @@ class FnSpec:
         self.ret = 'r'
         self.ghost_lines = 0
         self.twin_as = None
+        self.tparams = []        # rule R17: names the function's own type parameters must carry (alpha-renaming)
 
 
 _BT = r'`([^`]*)`'
@@ -225,6 +226,38 @@ def parse_opts(rest):
     quoted = re.findall(_BT, rest)
     bare = [b for b in re.sub(_BT, ' \x00 ', rest).split() if b != '\x00']
     return bare, quoted
+
+
+ADAPTORS = ('map', 'filter', 'filter_map', 'flat_map', 'flatten', 'collect', 'fold', 'any', 'all', 'zip', 'enumerate', 'rev', 'chain',
+            'cloned', 'copied', 'for_each', 'find', 'find_map', 'position', 'skip', 'take', 'skip_while', 'take_while', 'extend',
+            'and_then', 'or_else', 'unwrap_or_else', 'map_or', 'map_or_else', 'ok_or_else', 'then', 'retain', 'sort_by_key', 'sort_by',
+            'dedup_by_key', 'drain', 'last', 'count', 'sum', 'max', 'min', 'nth', 'peekable', 'scan', 'inspect', 'partition', 'unzip')
+
+
+def fn_shape(text, mask):
+    """coarse count of the constructs a deductive proof needs extra annotation for (loops need invariants, closures need their own
+    contracts, iterator adaptors have weak library specs, early exits multiply the exit points).  A function whose counts GROW relative
+    to the committed baseline has been restructured: a failed obligation there means "needs contract", not "property broken"."""
+    code = ''.join(c if m else ' ' for c, m in zip(text, mask))
+    sh = {}
+    sh['loop'] = len(re.findall(r'\b(?:for|while|loop)\b', code))
+    sh['exit'] = len(re.findall(r'\b(?:return|break|continue)\b', code)) + len(re.findall(r'\?(?=\s*[;.)\],}])', code))
+    n = 0
+    for m in re.finditer(r'\|', code):
+        i = m.start()
+        if i + 1 < len(code) and code[i + 1] == '=':
+            continue
+        before = code[:i].rstrip()
+        if not before:
+            continue
+        if before[-1] in '(,={;' or re.search(r'\b(?:move|return)$', before):
+            n += 1
+    sh['closure'] = n
+    for a in ADAPTORS:
+        k = len(re.findall(r'\.\s*%s\s*(?:::\s*<[^()]*>\s*)?\(' % a, code))
+        if k:
+            sh['.' + a] = k
+    return sh
 
 
 class Extractor:
@@ -382,6 +415,8 @@ class Extractor:
                 cur.attrs.append(rest.strip())
             elif word == 'ret':
                 cur.ret = bare[0]
+            elif word == 'tparams':
+                cur.tparams = list(bare)
             elif word == 'end':
                 self._emit_fn(cur, cur_kind, cur_src)
                 cur, target, cur_scope = None, None, None
@@ -460,7 +495,11 @@ class Extractor:
             self.log.rw('HDR', rel, line0, norm(header), header_q[0])
             header = header_q[0]
         self.out.emit(header + ' {', 'repo', None, rel, line0)
-        self.container = (word, it, src, rel, norm(header))
+        name_header = norm(header)
+        if bare[0] == 'expanded' and not (norm(it.header) + ' ').startswith(norm(quoted[0]) + ' '):
+            # a hand-written impl standing in for the derived one keeps the obligation names of the derived one
+            name_header = norm(global_rules(quoted[0], rel, line0, Log()))
+        self.container = (word, it, src, rel, name_header)
 
     def _find_expanded_impl(self, header, prefix=False):
         src = self.expanded_provider()
@@ -480,6 +519,28 @@ class Extractor:
                         bo += 1
                     if bo < x.end:
                         stack.append((bo + 1, match_close(src.text, src.mask, bo)))
+        if not cands and prefix:
+            # the derive may have been replaced by a hand-written impl: same trait (last path segment), same Self type
+            def key(h):
+                m = re.match(r'^impl(?:<.*?>)?\s+(\S+)\s+for\s+(.*?)(?:\s+where\b.*)?$', h)
+                return (m.group(1).split('::')[-1], re.sub(r'\s+', '', m.group(2))) if m else None
+            k0 = key(want)
+            stack = [(0, len(src.text))]
+            while stack and k0:
+                l, h = stack.pop()
+                for x in src.items(l, h):
+                    if x.kind == 'impl' and key(x.header) == k0:
+                        cands.append(x)
+                    elif x.kind == 'mod' and x.body_open is not None:
+                        stack.append((x.body_open + 1, x.end - 1))
+                    elif x.kind == 'const' and x.name == '_':
+                        bo = x.attr_end
+                        while bo < x.end and not (src.text[bo] == '{' and src.mask[bo]):
+                            bo += 1
+                        if bo < x.end:
+                            stack.append((bo + 1, match_close(src.text, src.mask, bo)))
+            if len(cands) == 1:
+                self.log.rw('HDR', 'rustc-expanded:src/lib.rs', 0, want + ' (as generated by the derive)', cands[0].header + ' (hand-written impl found instead)')
         if len(cands) != 1:
             raise LostAnchor('macro-expanded source: expected exactly one `%s`, found %d' % (want, len(cands)))
         return src, cands[0]
@@ -633,6 +694,7 @@ class Extractor:
             return ('\n' + ins + '\n') if block else ins
 
         all_edits = list(spec.edits)
+        skipped_groups = set()
         if self.canary and has_body and not spec.external:
             cl = ['proof { assert(false); } // CANARY']
             scopes = [None] + [e['scope'] for e in spec.edits if e['op'] == 'nested-spec']
@@ -753,10 +815,13 @@ class Extractor:
             elif op == 'rewrite':
                 if spec.external and e['rule'] not in ('RET', 'SIG'):
                     continue
+                if e.get('optional') and e['rule'] in skipped_groups:
+                    continue       # optional rewrites of one rule form a group: all or none
                 try:
                     m = find_anchor(seg, e['frm'], None)
                 except LostAnchor:
                     if e.get('optional'):
+                        skipped_groups.add(e['rule'])
                         continue   # the construct this rewrite exists for is gone; verify the text as it is
                     raise
                 self.log.rw(e['rule'], rel, line0 + text.count('\n', 0, lo + m.start()), norm(e['frm']), norm(e['to']))
@@ -836,6 +901,31 @@ class Extractor:
                 n16 += 1
             if n16:
                 self.log.rw('R16', rel, line0, 'return (move || { B })();  (%d occurrences)' % n16, 'return { B };')
+        # rule R17: alpha-rename the function's own type parameters to the names the trait declaration uses (this Verus build binds
+        # inherited `ensures` by NAME and crashes / mis-binds when an impl method renames a type parameter of the trait method)
+        if spec.tparams:
+            mg = re.search(r'\bfn\s+' + re.escape(spec.name) + r'\s*<', text)
+            if mg:
+                depth, j, start, names = 1, mg.end(), mg.end(), []
+                while j < len(text) and depth:
+                    c = text[j]
+                    if c in '<([':
+                        depth += 1
+                    elif c in '>)]':
+                        depth -= 1
+                    if (c == ',' and depth == 1) or depth == 0:
+                        mm = re.match(r"\s*(?:const\s+)?([A-Za-z_]\w*)", text[start:j])
+                        if mm and not text[start:j].lstrip().startswith("'"):
+                            names.append(mm.group(1))
+                        start = j + 1
+                    j += 1
+                for old, new in zip(names, spec.tparams):
+                    if old == new:
+                        continue
+                    for mo in re.finditer(r'(?<![\w:.])' + re.escape(old) + r'\b', text):
+                        if mask[mo.start()]:
+                            edits.append((mo.start(), len(old), new, False))
+                    self.log.rw('R17', rel, line0, 'fn %s<%s ..>' % (spec.name, old), 'fn %s<%s ..>  (type parameter renamed throughout the function)' % (spec.name, new))
         if kind == 'twinfn' and spec.twin_as:
             m = re.search(r'\bfn\s+' + re.escape(spec.name) + r'\b', text)
             edits.append((m.start(), m.end() - m.start(), 'fn ' + spec.twin_as, False))
@@ -885,7 +975,7 @@ class Extractor:
         self.log.insertions += spec.ghost_lines
         self.log.items.append(dict(kind='fn', name=oname, file=rel, line=line0,
                                    end_line=src.line_of(it.end), external=bool(spec.external and has_body),
-                                   declared_only=not has_body, ghost_lines=spec.ghost_lines,
+                                   declared_only=not has_body, ghost_lines=spec.ghost_lines, shape=fn_shape(text, mask),
                                    sha=hashlib.sha1(norm(src.text[it.attr_end:it.end]).encode()).hexdigest()[:12]))
         if not (spec.external and has_body):
             self.obligation_items.append(oname)
